@@ -109,6 +109,17 @@ def harness_limit(e):
             if (cls.__module__ or "").startswith(shadow.PKG) and _assigned_in_class_source(cls, getattr(e, "name", None)):
                 return (f"the fixture builds {cls.__qualname__} without its constructor and does not provide the attribute '{e.name}' "
                         f"the code now uses (new state needs a contract)")
+    if isinstance(e, TypeError):
+        # a TypeError that names the type of a fixture object found in the frames of the traceback ("object of type 'X' has no
+        # len()", "'X' object is not iterable", ...): the fixture does not model the protocol the code now uses
+        names = set(re.findall(r"'([A-Za-z_][A-Za-z_0-9.]*)'", str(e)))
+        tb = e.__traceback__
+        while tb is not None and names:
+            for v in list(tb.tb_frame.f_locals.values()):
+                cls = type(v)
+                if cls.__name__ in names and (cls.__module__ or "").split(".")[0] in ("contracts", "pyvc", "bounded"):
+                    return f"the fixture class {cls.__qualname__} does not model an operation the code now uses: {e}"
+            tb = tb.tb_next
     if isinstance(e, TypeError) and _PROXY_OP.search(str(e)):
         return f"an operation on a symbolic proxy is not modelled: {e}"
     if isinstance(e, TypeError) and _SIG_MISMATCH.search(str(e)) and ("<locals>" in str(e) or "<lambda>" in str(e)):
